@@ -345,9 +345,24 @@ func c03recursive(c *Ctx, fn *ssa.Function) {
 		if statusKind(alt.Results[0]) == "success" {
 			okRoot := false
 			for _, g := range alt.Guards {
-				p := an.Path(g.Cond)
-				if g.Truth && strings.Contains(p, "curQuotaName ==") && strings.Contains(p, "root") {
-					okRoot = true
+				// "<the current quota name> == root" holds (written as == taken, != not taken; the name being the
+				// parameter or, in the loop form of the walk, the loop variable that starts as the parameter)
+				rel, isRel := an.RelOf(g)
+				if !isRel || rel.Op != token.EQL {
+					continue
+				}
+				name, cst := rel.X, rel.Y
+				if _, isK := constString(name); isK {
+					name, cst = cst, name
+				}
+				k, isK := constString(cst)
+				if !isK || !strings.Contains(k, "root") {
+					continue
+				}
+				for _, src := range cellSources(name) {
+					if p, isP := src.(*ssa.Parameter); isP && len(fn.Params) > 2 && p == fn.Params[2] {
+						okRoot = true
+					}
 				}
 			}
 			r.Check(okRoot, "PATH", key+"/success-only-at-root", c.InstrPos(ret), "Success only when the walk reached the root", "a Success status is returned before the walk reached the root")
@@ -363,10 +378,39 @@ func c03recursive(c *Ctx, fn *ssa.Function) {
 		}
 	}
 	r.Check(len(bad) == 0, "PATH", key+"/false=>reject", c.InstrPos(le), "an exceeded ancestor always rejects", "although an ancestor's limit is exceeded the walk continues or succeeds: "+strings.Join(bad, ","))
+	nRec := 0
 	for _, cl := range an.Calls(fn, false) {
 		if an.ShortCallee(cl.Common()) == "checkQuotaRecursive" {
+			nRec++
 			r.Check(strings.HasSuffix(an.Path(cl.Common().Args[2]), ".ParentName"), "FLOW", key+"/recursion-to-parent", c.InstrPos(cl), "recursion continues with the parent", "the recursion does not continue with quotaInfo.ParentName")
 		}
+	}
+	if nRec == 0 && len(fn.Params) > 2 {
+		// the loop form of the walk: the current name is the parameter first and a ParentName afterwards
+		ok := false
+		for _, b := range fn.Blocks {
+			for _, in := range b.Instrs {
+				phi, isPhi := in.(*ssa.Phi)
+				if !isPhi {
+					continue
+				}
+				fromParam, fromParent, other := false, false, false
+				for _, e := range phi.Edges {
+					switch {
+					case e == ssa.Value(fn.Params[2]):
+						fromParam = true
+					case strings.HasSuffix(an.Path(e), ".ParentName"):
+						fromParent = true
+					default:
+						other = true
+					}
+				}
+				if fromParam && fromParent && !other {
+					ok = true
+				}
+			}
+		}
+		r.Check(ok, "FLOW", key+"/recursion-to-parent", c.Pos(fn.Pos()), "the walk continues with the parent", "the ancestor walk neither calls itself nor steps from the current quota to quotaInfo.ParentName")
 	}
 }
 
